@@ -493,6 +493,13 @@ func main() {
 		add("corpus", load(f))
 	}
 	r := lib.NewRng(a.Seed)
+	{
+		in0 := Input{Atoms: whr.GenAtoms(r, names, nicks)}
+		g := whr.NewGen(r, in0.Atoms)
+		for _, ch := range g.PatternChains(true) {
+			add("pattern", Input{Rows: genRows(r), Atoms: in0.Atoms, Chain: ch})
+		}
+	}
 	budget := 300
 	if a.Tier == "thorough" {
 		budget = 6000
